@@ -5,6 +5,7 @@
      1 a.md                 2 b.txt               3 big.md (L+1 bytes)   4 eq.md (exactly L bytes)
      5 ign.md (matched by the rule "ign.md" of .flowmarkignore)          6 node_modules/x.md
      7 sub/c.md             8 sub/deep/d.md       9 drafts/e.md         13 sub/f.txt
+    17 other/sub/c2.md     18 other/keep.md   (a second project directory with its own .flowmarkignore: "sub/")
     10 ln_in.md  -> a.md (symlink to a file inside)     11 ln_out.md -> a file outside the tree ("OUT")
     12 ln_dangling.md -> nothing                        ln_dir -> sub (symlink to a directory)
     16 ln_big.md -> big.md (symlink to the oversized file)
@@ -24,7 +25,7 @@ CONSTANTS MaxArgs, GlobFilters, WalkSkipsLinks, ForceAppliesIgnore, DoDump
 VARIABLES st, args, k, seen, result, pc
 vars == <<st, args, k, seen, result, pc>>
 
-U == [i \in 1..16 |->
+U == [i \in 1..18 |->
        CASE i = 1  -> [name |-> "a.md", dir |-> <<>>, ext |-> "md", size |-> "small", link |-> "none", to |-> 0]
          [] i = 2  -> [name |-> "b.txt", dir |-> <<>>, ext |-> "txt", size |-> "small", link |-> "none", to |-> 0]
          [] i = 3  -> [name |-> "big.md", dir |-> <<>>, ext |-> "md", size |-> "big", link |-> "none", to |-> 0]
@@ -42,9 +43,13 @@ U == [i \in 1..16 |->
          [] i = 14 -> [name |-> "raw.dat", dir |-> <<"notes.md">>, ext |-> "dat", size |-> "small", link |-> "none", to |-> 0]
          [] i = 15 -> [name |-> "in.md", dir |-> <<"notes.md">>, ext |-> "md", size |-> "small", link |-> "none", to |-> 0]
          \* a symlink to the oversized file: the size that counts is the size of the file that would be formatted
-         [] i = 16 -> [name |-> "ln_big.md", dir |-> <<>>, ext |-> "md", size |-> "big", link |-> "file", to |-> 3]]
-Ids == 1..16
-Args == {".", "sub", "ln_dir", "drafts", "a.md", "./a.md", "ABS/sub/../a.md", "node_modules/x.md", "big.md", "ln_big.md", "ign.md", "drafts/e.md", "*.md", "**/*.md", "sub/*"}
+         [] i = 16 -> [name |-> "ln_big.md", dir |-> <<>>, ext |-> "md", size |-> "big", link |-> "file", to |-> 3]
+         \* a second project directory with its OWN .flowmarkignore (rule "sub/"): the ignore file that counts is the one found from the root of
+         \* the walk / glob, so other/sub/c2.md is dropped when reached from "other" and kept when reached from "."
+         [] i = 17 -> [name |-> "c2.md", dir |-> <<"other", "sub">>, ext |-> "md", size |-> "small", link |-> "none", to |-> 0]
+         [] i = 18 -> [name |-> "keep.md", dir |-> <<"other">>, ext |-> "md", size |-> "small", link |-> "none", to |-> 0]]
+Ids == 1..18
+Args == {".", "sub", "ln_dir", "drafts", "other", "other/**/*.md", "a.md", "./a.md", "ABS/sub/../a.md", "node_modules/x.md", "big.md", "ln_big.md", "ign.md", "drafts/e.md", "*.md", "**/*.md", "sub/*"}
 Settings == [extinc : BOOLEAN, excl : BOOLEAN, extexcl : {"none", "base", "path"}, force : BOOLEAN, limit : BOOLEAN, toolign : BOOLEAN]
 
 Target(i) == IF U[i].link = "none" THEN i ELSE U[i].to          \* identity after Path.resolve()
@@ -57,25 +62,30 @@ ExclDirs == (IF st.excl THEN {"drafts"} ELSE {"node_modules"}) \cup (IF st.extex
 \* some directory component strictly below the walk root `base` is excluded
 InExcl(i, base) == \/ \E j \in (Len(base) + 1)..Len(U[i].dir) : U[i].dir[j] \in ExclDirs
                    \/ (st.extexcl = "path" /\ IsPrefix(<<"sub", "deep">>, SubSeq(U[i].dir, Len(base) + 1, Len(U[i].dir))))
-ToolIgn(i) == st.toolign /\ U[i].name = "ign.md"
+\* the tool ignore file is looked up from the ROOT of the walk / glob upwards (first one found): below "other" that is other/.flowmarkignore
+\* (rule "sub/"), elsewhere the tree's own (rule "ign.md")
+ToolIgnAt(i, base) == st.toolign /\ (IF IsPrefix(<<"other">>, base) THEN IsPrefix(<<"other", "sub">>, U[i].dir) ELSE U[i].name = "ign.md")
+ToolIgn(i) == ToolIgnAt(i, <<>>)
 TooBig(i) == st.limit /\ U[i].size = "big"
-Filters(i, base) == IncludeOK(i) /\ ~InExcl(i, base) /\ ~ToolIgn(i) /\ ~TooBig(i)
+Filters(i, base) == IncludeOK(i) /\ ~InExcl(i, base) /\ ~ToolIgnAt(i, base) /\ ~TooBig(i)
 
 \* ---------------- what each argument denotes ----------------
-DirOf(a) == CASE a = "." -> <<>> [] a = "sub" -> <<"sub">> [] a = "ln_dir" -> <<"sub">> [] a = "drafts" -> <<"drafts">>   \* a walk root that is itself an excluded directory name
+DirOf(a) == CASE a = "." -> <<>> [] a = "sub" -> <<"sub">> [] a = "ln_dir" -> <<"sub">> [] a = "drafts" -> <<"drafts">> [] a = "other" -> <<"other">>   \* a walk root that is itself an excluded directory name
 FileOf(a) == CASE a = "a.md" -> 1 [] a = "./a.md" -> 1 [] a = "ABS/sub/../a.md" -> 1 [] a = "node_modules/x.md" -> 6 [] a = "big.md" -> 3 [] a = "ln_big.md" -> 16    \* ABS/..: absolute, not canonical (<tree>/sub/../a.md)
                [] a = "ign.md" -> 5 [] a = "drafts/e.md" -> 9
-IsDirArg(a) == a \in {".", "sub", "ln_dir", "drafts"}
+IsDirArg(a) == a \in {".", "sub", "ln_dir", "drafts", "other"}
 IsFileArg(a) == a \in {"a.md", "./a.md", "ABS/sub/../a.md", "node_modules/x.md", "big.md", "ln_big.md", "ign.md", "drafts/e.md"}
-IsGlobArg(a) == a \in {"*.md", "**/*.md", "sub/*"}
+IsGlobArg(a) == a \in {"*.md", "**/*.md", "sub/*", "other/**/*.md"}
+GlobRoot(a) == IF a = "other/**/*.md" THEN <<"other">> ELSE <<>>
 GlobMatch(a) == CASE a = "*.md" -> {i \in Ids : U[i].dir = <<>> /\ U[i].ext = "md" /\ U[i].link # "dangling"}
                   [] a = "**/*.md" -> {i \in Ids : U[i].ext = "md" /\ U[i].link # "dangling"}
                   [] a = "sub/*" -> {i \in Ids : U[i].dir = <<"sub">>}
+                  [] a = "other/**/*.md" -> {i \in Ids : IsPrefix(<<"other">>, U[i].dir) /\ U[i].ext = "md"}
 Under(d) == {i \in Ids : IsPrefix(d, U[i].dir)}
 
 \* ---------------- the declarative reading of the property ----------------
 MustOf(a) == IF IsDirArg(a) THEN {i \in Under(DirOf(a)) : U[i].link = "none" /\ Filters(i, DirOf(a))}
-             ELSE IF IsGlobArg(a) THEN {i \in GlobMatch(a) : U[i].link = "none" /\ Filters(i, <<>>)}
+             ELSE IF IsGlobArg(a) THEN {i \in GlobMatch(a) : U[i].link = "none" /\ Filters(i, GlobRoot(a))}
              ELSE LET i == FileOf(a) IN
                   IF ~TooBig(i) /\ (~st.force \/ (~InExcl(i, <<>>) /\ ~ToolIgn(i))) THEN {Target(i)} ELSE {}
 \* free choices the property leaves open: symlinks matched by a glob (they are named by the pattern, not traversed)
@@ -84,9 +94,9 @@ Must == UNION {MustOf(args[n]) : n \in 1..Len(args)}
 May == UNION {MayOf(args[n]) : n \in 1..Len(args)}
 
 \* ---------------- resolve() as implemented ----------------
-WalkYield(d) == {i \in Under(d) : IncludeOK(i) /\ ~InExcl(i, d) /\ ~ToolIgn(i) /\ ~TooBig(i)
+WalkYield(d) == {i \in Under(d) : IncludeOK(i) /\ ~InExcl(i, d) /\ ~ToolIgnAt(i, d) /\ ~TooBig(i)
                                   /\ (WalkSkipsLinks => U[i].link = "none")}
-GlobYield(a) == {i \in GlobMatch(a) : IncludeOK(i) /\ ~TooBig(i) /\ (GlobFilters => (~InExcl(i, <<>>) /\ ~ToolIgn(i)))}
+GlobYield(a) == {i \in GlobMatch(a) : IncludeOK(i) /\ ~TooBig(i) /\ (GlobFilters => (~InExcl(i, GlobRoot(a)) /\ ~ToolIgnAt(i, GlobRoot(a))))}
 FileYield(a) == LET i == FileOf(a) IN
                 IF ~TooBig(i) /\ (~st.force \/ (~InExcl(i, <<>>) /\ (ForceAppliesIgnore => ~ToolIgn(i)))) THEN {i} ELSE {}
 Init == /\ st \in Settings /\ args \in UNION {[1..n -> Args] : n \in 1..MaxArgs}
